@@ -11,7 +11,8 @@
     raises TypeError or ValueError AND LEAVES THE STATE UNCHANGED, independent properties keep
     their readings.  What is proved: get_set / none / frame / history as stated, for every
     property built from the builders (A) typed attribute, (B) remove-then-add child, (D) child
-    presence; reject with the unchanged state where the code has it (every element on the way
+    presence, (E) a value child guarded by a sibling mode child (Legend.horz_offset: from every state, also
+    the modes only other producers write); reject with the unchanged state where the code has it (every element on the way
     already exists, validation before mutation) and the exact residue otherwise (the property's
     statement does not ask for an unchanged element; the model lists the setters that mutate
     before validating in Diag_C09).  What the statement does forbid -- a getter that raises after a
@@ -199,6 +200,93 @@ Theorem C09_get_set_flag : forall ch c init neg,
   /\ eval (flag_gexp ch c neg) (fst (run (flag_prog ch c init neg) v s)) = Ok (PBool (py_truth (av_val v))).
 Proof. exact flag_prop_get_set. Qed.
 Print Assumptions C09_get_set_flag.
+
+(** C09_get_set / C09_none / C09_reject, builder (E): a value child that counts only while a sibling mode child
+    reads [on] (manual layout: c:xMode + c:x).  For EVERY well-formed state -- so also from the states only another
+    producer writes: another mode, a value child without a mode child, ... -- an accepted value that is not the
+    [zero] one reads back as stored AND the mode attribute reads [on] afterwards *)
+Theorem C09_get_set_moded : forall ch box m x zero off md on d,
+  box <> [] -> parent m = box -> parent x = box -> is_prefix x m = false ->
+  forall v s s1 on2, WF s -> chain_exec ch s = (s1, true) -> present (parent box) s1 = true ->
+  cond_eval zero v s1 = false -> accepts (ad_codec d) (ad_kind d) (av_val v) = true ->
+  accepts (ad_codec md) (ad_kind md) on = true -> stored (ad_codec md) (ad_kind md) on = Ok on2 -> py_eqb on2 on = true ->
+  snd (run (moded_prog ch box m x zero md on d) v s) = Ok tt
+  /\ eval (moded_gexp ch box m x off md on d) (fst (run (moded_prog ch box m x zero md on d) v s)) = stored (ad_codec d) (ad_kind d) (av_val v)
+  /\ attr_get m (ad_attr md) (ad_codec md) (ad_kind md) (fst (run (moded_prog ch box m x zero md on d) v s)) = Ok on2
+  /\ WF (fst (run (moded_prog ch box m x zero md on d) v s)).
+Proof. exact moded_prop_get_set. Qed.
+Print Assumptions C09_get_set_moded.
+
+Theorem C09_none_moded : forall ch box m x zero off md on d,
+  box <> [] -> parent m = box -> parent x = box ->
+  forallb (fun l => negb (is_prefix box (lv_path l))) ch = true ->
+  forall v s s1, WF s -> chain_exec ch s = (s1, true) -> present (parent box) s1 = true ->
+  cond_eval zero v s1 = true -> accepts (ad_codec d) (ad_kind d) (av_val v) = true ->
+  run (moded_prog ch box m x zero md on d) v s = (del_sub box s1, Ok tt)
+  /\ eval (moded_gexp ch box m x off md on d) (del_sub box s1) = off.
+Proof. exact moded_prop_zero. Qed.
+Print Assumptions C09_none_moded.
+
+Theorem C09_reject_moded : forall ch box m x zero md on d v s,
+  accepts (ad_codec d) (ad_kind d) (av_val v) = false ->
+  exists e, enc (ad_codec d) (av_val v) = Err e /\ run (moded_prog ch box m x zero md on d) v s = (s, Err e).
+Proof. exact moded_prop_reject. Qed.
+Print Assumptions C09_reject_moded.
+
+(** ... and what the reader makes of a foreign mode: [off], whatever the value child holds *)
+Theorem C09_moded_foreign_mode : forall ch box m x off md on d s mode o,
+  forallb (fun l => present (lv_path l) s) ch = true ->
+  attr_get m (ad_attr md) (ad_codec md) (ad_kind md) s = Ok mode -> py_eqb mode on = false -> off = Ok o -> o <> PNone ->
+  eval (moded_gexp ch box m x off md on d) s = off.
+Proof. exact moded_foreign_mode_reads_off. Qed.
+Print Assumptions C09_moded_foreign_mode.
+
+(** instance: Legend.horz_offset (the catalogue entry IS the builder (E) program over c:layout/c:manualLayout) *)
+Theorem C09_horz_offset_in_catalogue :
+  find_entry (s2l "Legend.horz_offset"%lit) = Some (mk "Legend" "horz_offset" "" horz_offset_get horz_offset_set)%lit.
+Proof. exact horz_offset_in_catalogue. Qed.
+Print Assumptions C09_horz_offset_in_catalogue.
+
+Theorem C09_get_set_horz_offset : forall v s, WF s ->
+  accepts dbl_c AReq (av_val v) = true -> py_eqb (av_val v) f_zero = false ->
+  snd (run horz_offset_set v s) = Ok tt
+  /\ eval horz_offset_get (fst (run horz_offset_set v s)) = stored dbl_c AReq (av_val v)
+  /\ attr_get ho_m (ad_attr A_CT_LayoutMode__val) (ad_codec A_CT_LayoutMode__val) (ad_kind A_CT_LayoutMode__val)
+              (fst (run horz_offset_set v s)) = Ok mode_factor
+  /\ WF (fst (run horz_offset_set v s)).
+Proof. exact horz_offset_get_set. Qed.
+Print Assumptions C09_get_set_horz_offset.
+
+Theorem C09_none_horz_offset : forall v s, WF s ->
+  accepts dbl_c AReq (av_val v) = true -> py_eqb (av_val v) f_zero = true ->
+  snd (run horz_offset_set v s) = Ok tt
+  /\ present ho_box (fst (run horz_offset_set v s)) = false
+  /\ eval horz_offset_get (fst (run horz_offset_set v s)) = Ok f_zero.
+Proof. exact horz_offset_zero. Qed.
+Print Assumptions C09_none_horz_offset.
+
+Theorem C09_reject_horz_offset : forall v s, accepts dbl_c AReq (av_val v) = false ->
+  exists e, enc dbl_c (av_val v) = Err e /\ run horz_offset_set v s = (s, Err e).
+Proof. exact horz_offset_reject. Qed.
+Print Assumptions C09_reject_horz_offset.
+
+Theorem C09_horz_offset_foreign_mode : forall s mode, present (pth "c:layout"%lit) s = true ->
+  attr_get ho_m (ad_attr A_CT_LayoutMode__val) (ad_codec A_CT_LayoutMode__val) (ad_kind A_CT_LayoutMode__val) s = Ok mode ->
+  py_eqb mode mode_factor = false -> eval horz_offset_get s = Ok f_zero.
+Proof. exact horz_offset_foreign_mode. Qed.
+Print Assumptions C09_horz_offset_foreign_mode.
+
+(** non-vacuity from a foreign pre-state (the legend was dragged in PowerPoint: mode edge, absolute position 0.7):
+    the hypotheses of C09_get_set_horz_offset hold, the offset reads 0.0 before, 0.25 after, the mode text is gone *)
+Example C09_ex_horz_offset_from_edge :
+  wf w_legend_edge = true
+  /\ eval horz_offset_get w_legend_edge = Ok f_zero
+  /\ accepts dbl_c AReq (av_val quarter) = true /\ py_eqb (av_val quarter) f_zero = false
+  /\ snd (run horz_offset_set quarter w_legend_edge) = Ok tt
+  /\ eval horz_offset_get (fst (run horz_offset_set quarter w_legend_edge)) = Ok (PFloat (Fin 1 (-2)))
+  /\ lookup (ho_m, Some (s2l "val"%lit)) (fst (run horz_offset_set quarter w_legend_edge)) = None
+  /\ stored dbl_c AReq (av_val quarter) = Ok (PFloat (Fin 1 (-2))).
+Proof. exact ex_horz_offset_from_edge. Qed.
 
 (** C09_history, abstract: read-after-write + refusal leaves the state + independence imply
     that after ANY assignment sequence every property reads its last accepted value *)
